@@ -576,6 +576,113 @@ def main():
          "  refine ⟨?_, ?_, ?_, ?_⟩ <;> simp only [GenMV.classify_y, GenMV.classify_einf_wedge, GenMV.classify_direction_of_direction, "
          "GenMV.classify_rad2, Classify.vdot, Classify.vwedge, Classify.dotv]\n")
 
+    # ---- g3c rotor roots: rotor_between_objects_root (main branches), pos_twiddle_root, general_root (positive branch), positive_root,
+    #      dorst_norm, annihilate_k, square_roots_of_rotor — the chain behind C13.rotor_between_objects_g3c / square_root_of_rotor
+    def nodoc(body):
+        return [s_ for s_ in body if not (isinstance(s_, ast.Expr) and isinstance(s_.value, ast.Constant))]
+
+    def gen_roots():
+        g = tree(G3C)
+        # rotor_between_objects_root
+        f = find(g, 'rotor_between_objects_root')
+        body = nodoc(f.body)
+        pre = {ast.unparse(st.targets[0]): st.value for st in body if isinstance(st, ast.Assign)}
+        if ast.unparse(pre.get('gamma', ast.Constant(0))) != '(X1 * X1).value[0]':
+            raise Refuse("gamma is not (X1 * X1).value[0]")
+        ifs = [st for st in body if isinstance(st, ast.If)]
+        if len(ifs) != 1 or ast.unparse(ifs[0].test) != 'gamma > 0':
+            raise Refuse("expected one `if gamma > 0`")
+        tr = Tr(dict(X1=M('X1'), X2=M('X2'), gamma=S('γ')))
+        for nm in ('X21', 'X12'):
+            if nm in pre:
+                tr.env[nm] = T(f"({tr.tr(pre[nm]).lean})", 'm')
+
+        def branch(stmts, want_ret):
+            cs = [st for st in stmts if isinstance(st, ast.Assign) and ast.unparse(st.targets[0]) == 'C']
+            if len(cs) != 1:
+                raise Refuse("C is not assigned exactly once in a branch")
+            guards = [st for st in stmts if isinstance(st, ast.If)]
+            if len(guards) != 1 or ast.unparse(guards[0].test) != 'abs(C.value[0]) < 1e-06':
+                raise Refuse("null-C guard")
+            rest = [st for st in stmts if isinstance(st, ast.Return)] + [st for st in guards[0].orelse if isinstance(st, ast.Return)]
+            if len(rest) != 1 or ast.unparse(rest[0].value) != want_ret:
+                raise Refuse(f"branch does not end in `return {want_ret}`")
+            return tr.tr(cs[0].value).lean
+        cpos = branch(ifs[0].body, 'pos_twiddle_root(C)[0].normal()')
+        cneg = branch(ifs[0].orelse, 'C.normal()')
+        # pos_twiddle_root
+        f = find(g, 'pos_twiddle_root')
+        src = [ast.unparse(st) for st in nodoc(f.body)]
+        if src != ['sigma = C * ~C', 'k1, k2 = general_root(sigma)', 'return (annihilate_k(k1, C), annihilate_k(k2, C))']:
+            raise Refuse(f"pos_twiddle_root: {src}")
+        # general_root: the first branch
+        f = find(g, 'general_root')
+        gi = [st for st in nodoc(f.body) if isinstance(st, ast.If)]
+        if not gi or ast.unparse(gi[0].test) != 'check_sigma_for_positive_root(sigma)' or not isinstance(gi[0].body[0], ast.Return) \
+                or not ast.unparse(gi[0].body[0].value).startswith('(positive_root(sigma), '):
+            raise Refuse("general_root: first branch is not `if check_sigma_for_positive_root(sigma): return positive_root(sigma), 0`")
+        f = find(g, 'check_sigma_for_positive_root')
+        if ast.unparse(last_return(f)) != 'sigma.value[0] + dorst_norm(sigma) > 0':
+            raise Refuse("check_sigma_for_positive_root")
+        # dorst_norm
+        f = find(g, 'dorst_norm')
+        src = [ast.unparse(st) for st in nodoc(f.body)]
+        if len(src) != 3 or src[0] != 'sigma_4 = sigma(4)' or src[2] != 'return math.sqrt(sqrd_ans)':
+            raise Refuse(f"dorst_norm: {src}")
+        sq = assigns(f, 'sqrd_ans')[0]
+        tn = Tr({}, opaque={'sigma.value[0]': S('s'), '(sigma_4 * sigma_4).value[0]': S('t')}).tr(sq)
+        if tn.kind != 's':
+            raise Refuse("dorst_norm: squared norm is not a scalar expression")
+        # positive_root
+        f = find(g, 'positive_root')
+        body = nodoc(f.body)
+        src = [ast.unparse(st) for st in body]
+        if len(src) != 3 or src[0] != 'norm_s = dorst_norm(sigma)':
+            raise Refuse(f"positive_root: {src}")
+        den = assigns(f, 'denominator')[0]
+        if not (isinstance(den, ast.BinOp) and isinstance(den.op, ast.Mult) and ast.unparse(den.left) == 'math.sqrt(2)'
+                and isinstance(den.right, ast.Call) and ast.unparse(den.right.func) == 'math.sqrt' and len(den.right.args) == 1):
+            raise Refuse("positive_root: denominator is not math.sqrt(2) * math.sqrt(<expr>)")
+        trp = Tr(dict(sigma=M('σ'), norm_s=S('n'), denominator=S('den')), opaque={'sigma.value[0]': S('s')})
+        dsq = trp.tr(den.right.args[0])
+        if dsq.kind != 's':
+            raise Refuse("positive_root: radicand")
+        proot = trp.tr(last_return(f))
+        # annihilate_k
+        f = find(g, 'annihilate_k')
+        src = [ast.unparse(st) for st in nodoc(f.body)]
+        if len(src) != 2 or src[1] != 'return (k_4 * C).normal()':
+            raise Refuse(f"annihilate_k: {src}")
+        tk = Tr(dict(C=M('C')), opaque={'K.value[0]': S('K0'), 'K(4)': M('K4')})
+        k4 = tk.tr(assigns(f, 'k_4')[0])
+        tk.env['k_4'] = T(f"({k4.lean})", 'm')
+        ann = tk.tr(ast.parse('k_4 * C', mode='eval').body)
+        # square_roots_of_rotor
+        f = find(g, 'square_roots_of_rotor')
+        r = last_return(f)
+        if not (isinstance(r, ast.Call) and ast.unparse(r.func) == 'pos_twiddle_root' and len(r.args) == 1):
+            raise Refuse("square_roots_of_rotor is not pos_twiddle_root(<expr>)")
+        sarg = Tr(dict(R=M('R'))).tr(r.args[0])
+        return (f"def g3c_rbo_C_pos (γ : ℚ) (X1 X2 : A) : A := {cpos}\n"
+                f"def g3c_rbo_C_neg (X1 X2 : A) : A := {cneg}\n"
+                f"def g3c_dorst_norm_sq (s t : ℚ) : ℚ := {tn.lean}\n"
+                f"def g3c_positive_root_radicand (s n : ℚ) : ℚ := (2 : ℚ) * {dsq.lean}\n"
+                f"def g3c_positive_root (σ : A) (n den : ℚ) : A := {proot.lean}\n"
+                f"def g3c_annihilate_k (K0 : ℚ) (K4 C : A) : A := {ann.lean}\n"
+                f"def g3c_sqrt_rotor_arg (R : A) : A := {sarg.lean}\n")
+    emit('g3c_rotor_roots', gen_roots,
+         "theorem g3c_rotor_roots_eq (γ s t n den K0 : ℚ) (X1 X2 σ q K4 C R : A) :\n"
+         "    GenMV.g3c_rbo_C_pos γ X1 X2 = 1 + γ • (X2 * X1) ∧ GenMV.g3c_rbo_C_neg X1 X2 = 1 + (-1 : ℚ) • (X2 * X1)\n"
+         "    ∧ GenMV.g3c_dorst_norm_sq s t = s * s - t ∧ GenMV.g3c_positive_root_radicand s n = 2 * (s + n)\n"
+         "    ∧ GenMV.g3c_positive_root σ n den = (1 / den) • (σ + n • (1 : A))\n"
+         "    ∧ GenMV.g3c_annihilate_k K0 K4 C = (K0 • (1 : A) - K4) * C ∧ GenMV.g3c_sqrt_rotor_arg R = 1 + R\n"
+         "    -- the chain: annihilate_k(positive_root(s + q), C) with K[0] = (s+n)/den, K(4) = q/den is the rotor of C13.rotor_between_objects_g3c\n"
+         "    ∧ GenMV.g3c_annihilate_k ((1 / den) * (s + n)) ((1 / den) • q) (GenMV.g3c_rbo_C_pos γ X1 X2)\n"
+         "        = (1 / den) • (((s + n) • (1 : A) - q) * (1 + γ • (X2 * X1))) := by\n"
+         "  refine ⟨?_, ?_, ?_, ?_, ?_, ?_, ?_, ?_⟩ <;>\n"
+         "    simp only [GenMV.g3c_rbo_C_pos, GenMV.g3c_rbo_C_neg, GenMV.g3c_dorst_norm_sq, GenMV.g3c_positive_root_radicand, GenMV.g3c_positive_root,\n"
+         "      GenMV.g3c_annihilate_k, GenMV.g3c_sqrt_rotor_arg] <;> first | mv_fin | (mv_nf; mv_fin) | ring\n")
+
     out.append("end GenMV\n\nopen Classify in\nsection\nvariable {A : Type} [Ring A] [Algebra ℚ A]\n")
     for name, t in thms:
         out.append(t + "\n")
